@@ -10,14 +10,20 @@
 (* empty and `invalid' is 0.  TraceDetStrict.cfg additionally states the   *)
 (* property as the invariant Functional (TLC stops at the first rejected   *)
 (* Observe and prints the two configurations).                             *)
-(* Event: {"ev":"Observe","input":"<file>|<kind>","cfg":{gc:{flag,k,j},    *)
-(*         aslr,cwd,env,inv,rep},"digest":[w0,w1,w2,w3]}   (words < 2^31;   *)
-(*         [-1,-1,-1,-1] = the output does not exist)                       *)
+(* Event: {"ev":"Observe","input":"<file>|<kind>[:<proj>][|in-batch:<id>]", *)
+(*         "kind":k,"proj":p,"cfg":{gc:{flag,k,j},aslr,cwd,env,inv,rep},    *)
+(*         "digest":[w0,w1,w2,w3]}   (words < 2^31; [-1,-1,-1,-1] = the     *)
+(*         output does not exist).  kind/proj name the view of the output    *)
+(* that was digested: the full text ("text") or one of DetCfg!Projections;  *)
+(* an event naming another view is invalid.  A rejected Observe carries     *)
+(* `renumbering': whether the recorded renumbering of lexicals (DetCfg!     *)
+(* RenumberingMayExplain) could explain it at all -- never for a projection. *)
 (***************************************************************************)
 EXTENDS TraceObs, FiniteSets, Integers
 
 CONSTANTS Ks, MaxRep
-C == INSTANCE DetCfg WITH cfg <- <<>>, pc <- 0       \* only its constant-level operators are used here
+MaxBatch == 2
+C == INSTANCE DetCfg WITH cfg <- <<>>, pc <- 0, batch <- <<>>      \* only its constant-level operators are used here
 
 VARIABLES dis,      \* the rejected Observe events, in order
           invalid,  \* number of events whose cfg is not a configuration of DetCfg
@@ -31,12 +37,15 @@ SetToSeq(S) == LET RECURSIVE F(_)
                    F(T) == IF T = {} THEN <<>> ELSE LET x == CHOOSE y \in T : TRUE IN <<x>> \o F(T \ {x})
                IN F(S)
 
+ViewOk(e) == /\ "kind" \in DOMAIN e /\ "proj" \in DOMAIN e
+             /\ C!ValidView(e.kind, e.proj)
+
 DetInit == Init /\ dis = <<>> /\ invalid = 0 /\ unordered = 0
 
 DetObserve ==
   /\ StepObserve
   /\ LET e == Trc[l]
-         ok == C!Valid(e.cfg) /\ DigestOk(e.digest)
+         ok == C!Valid(e.cfg) /\ DigestOk(e.digest) /\ ViewOk(e)
      IN /\ invalid' = IF ok THEN invalid ELSE invalid + 1
         /\ unordered' = IF ok /\ Known(e.input) /\ C!Valid(who[e.input]) /\ C!Dist(e.cfg) < C!Dist(who[e.input])
                         THEN unordered + 1 ELSE unordered
@@ -44,6 +53,8 @@ DetObserve ==
                   ELSE Append(dis, [event |-> l, input |-> e.input,
                                     cfg |-> C!Id(e.cfg), first |-> C!Id(who[e.input]),
                                     axes |-> SetToSeq(C!DiffAxes(who[e.input], e.cfg)),
+                                    kind |-> e.kind, proj |-> e.proj,
+                                    renumbering |-> C!RenumberingMayExplain(e.kind, e.proj, C!DiffAxes(who[e.input], e.cfg)),
                                     image |-> IF C!SameImage(who[e.input], e.cfg) THEN "same" ELSE "differs"])
 
 DetReset  == StepReset /\ UNCHANGED <<dis, invalid, unordered>>
